@@ -262,7 +262,9 @@ func (c *c02Case) stepCommit(h *c02Handle) {
 	case ok && noNovelSame:
 		// flush of nothing: allowed to report success whatever the persisted root is; it
 		// rebases the handle and must not change anything
-		h.synced = c.m.cur()
+		if h.kind != "jr" { // a read-only journal opener's view does not advance on rebase
+			h.synced = c.m.cur()
+		}
 		c.classes["noop_same_root_commit"] = true
 	case ok:
 		if last != before {
